@@ -1,14 +1,16 @@
 ---------------------------- MODULE Advertiser ----------------------------
 (* Generated from Advertiser.tla.in by spec/unch.py (only UNCHANGED clauses are expanded). *)
 (***************************************************************************)
-(* Implementation-shaped model of ONE dial session of ONE advertising      *)
-(* interface of CoreRAD (internal/corerad/advertise.go, listener.go,       *)
+(* Implementation-shaped model of the dial sessions (up to MaxSessions, the  *)
+(* re-dial itself always succeeding: dial failures are Dialer.tla's matter) *)
+(* of ONE advertising interface of CoreRAD (internal/corerad/advertise.go, listener.go,       *)
 (* the schedgroup monitor, errgroup), at goroutine-step granularity, with  *)
 (* discrete urgent time: `now` advances only when no internal step is      *)
 (* enabled (exactly the execution model of a testing/synctest bubble).     *)
 (*                                                                         *)
 (* One action per critical section / step between two blocking operations: *)
-(*   main      M_InitSend, M_EgDone, M_ShutCall, M_ShutRet                 *)
+(*   main      M_InitSend, M_EgDone, M_ShutCall, M_ShutRet ; D_Redial (the  *)
+(*             Dialer re-establishes the task after a recoverable error)   *)
 (*   scheduler S_RecvErr, S_CtxDone, S_RecvIP, S_Stopped ;                 *)
 (*             T_Fire (a time.AfterFunc timer fires into its goroutine)    *)
 (*   workers   W_Start, W_Build, W_WCall, W_WRet, W_Count, W_ErrGiveUp     *)
@@ -44,6 +46,7 @@ CONSTANTS
   Kinds,         \* extra message kinds offered by the environment
   MaxIn, MaxT, MaxFlips, MaxHolds,
   WriteFaults, LinkFaults, AllowCancel, MaxQueries,
+  MaxSessions,   \* connections the Dialer may open one after the other (1 = no re-dial in the model)
   Sec            \* one second in ticks (for the monitor's rounding; 1 = waits are whole ticks)
 
 NONE == "none"
@@ -68,10 +71,11 @@ VARIABLES
   fwd,           \* kernel forwarding flag
   held,          \* destinations whose WriteTo is held open by the driver
   rq,            \* requirement monitor state (AdvReq)
+  conn,          \* id of the current connection (session number)
   nIn, nFlip, nHold, nQuery
 
 vars == <<now, parent, term, egc, egerr, main, ret, sch, stopped, tasks, nextId, wk, mc,
-          ls, lsown, intr, dl, lw, linkEv, ipc, inbox, fwd, held, rq, nIn, nFlip, nHold, nQuery>>
+          ls, lsown, intr, dl, lw, linkEv, ipc, inbox, fwd, held, rq, conn, nIn, nFlip, nHold, nQuery>>
 
 IsMc(d) == d = ALLNODES
 EgC  == egc \/ parent = "canceled"     \* errgroup ctx is a child of Run's ctx
@@ -83,16 +87,20 @@ Cap(i, d) == IF i < InitCount /\ d > InitCap THEN InitCap ELSE d
 Waits(i) == {Cap(i, d) : d \in {x \in MinIv..MaxIv : (x - MinIv) % Sec = 0}}
 
 Life == IF fwd THEN CfgLife ELSE 0
+\* error classes the Dialer re-establishes the task for (link change, non-permission system call errors)
+Recoverable(e) == e \in {"linkchange", "readerrsys", "txerrsys"}
 
 \* observable events, in the vocabulary of AdvReq (k = 1: one session)
 EvT         == [t |-> now]
 EvFwd       == [val |-> fwd, ok |-> TRUE, t |-> now]
-EvWC(d, l)  == [k |-> 1, dst |-> d, mc |-> IsMc(d), type |-> "ra", life |-> l, body |-> "b", t |-> now]
-EvWR(d, ok) == [k |-> 1, dst |-> d, mc |-> IsMc(d), ok |-> ok, t |-> now]
-EvIn(kind, src, hl) == [k |-> 1, kind |-> kind, src |-> src, hl |-> hl, t |-> now]
+EvWC(d, l)  == [k |-> conn, dst |-> d, mc |-> IsMc(d), type |-> "ra", life |-> l, body |-> "b", t |-> now]
+EvWRc(d, res) == [k |-> conn, dst |-> d, mc |-> IsMc(d), ok |-> (res = "ok"), cls |-> IF res = "ok" THEN "" ELSE res, t |-> now]
+EvWR(d, ok) == EvWRc(d, IF ok THEN "ok" ELSE "other")
+EvInC(kind, cls, src, hl) == [k |-> conn, kind |-> kind, cls |-> cls, src |-> src, hl |-> hl, t |-> now]
+EvIn(kind, src, hl) == EvInC(kind, "", src, hl)
 EvCnt(c)    == [c |-> c, t |-> now]
-EvRC        == [k |-> 1, t |-> now]
-EvK         == [k |-> 1, t |-> now]
+EvRC        == [k |-> conn, t |-> now]
+EvK         == [k |-> conn, t |-> now]
 \* buildRA: the forwarding read, plus the interface_not_forwarding log line when the lifetime is overridden
 Gen(r)      == LET r1 == OnFwd(r, EvFwd) IN IF ~fwd /\ CfgLife > 0 THEN OnMisLog(r1, EvT) ELSE r1
 
@@ -108,6 +116,7 @@ Init ==
   /\ ipc = <<>> /\ inbox = <<>> /\ fwd \in BOOLEAN /\ held = {}
   /\ rq = ReqInit([unicast |-> UnicastOnly, cfglife |-> CfgLife, mon |-> MonitorMode, strict |-> MinIv > MaxT,
                   quiet |-> (MaxIn = 0 /\ MinIv >= 2 * MinDelay), miniv |-> MinIv, maxiv |-> MaxIv])
+  /\ conn = 1
   /\ nIn = 0 /\ nFlip = 0 /\ nHold = 0 /\ nQuery = 0
 
 \* errgroup: first error wins and cancels the group context
@@ -118,24 +127,56 @@ Fail(e) == /\ egerr' = IF egerr = NONE THEN e ELSE egerr
 (* main goroutine: Run -> Prepare -> initial send -> advertise -> eg.Wait -> shutdown *)
 M_InitSend ==
   /\ main = "init"
-  /\ rq' = LET r1 == OnDial(rq, [k |-> 1, res |-> "ok", t |-> now]) IN
-           IF UnicastOnly \/ MonitorMode THEN r1      \* send() skips multicast before building anything; a monitor sends nothing
-           ELSE OnWRet(OnWCall(Gen(r1), EvWC(ALLNODES, Life)), EvWR(ALLNODES, TRUE))
-  /\ main' = "egwait"
-  /\ sch' = [sch EXCEPT !.pc = IF MonitorMode THEN "done" ELSE "select", !.last = now]
-  /\ mc' = [mc EXCEPT !.pc = IF UnicastOnly \/ MonitorMode THEN "done" ELSE "check"]
-  /\ ls' = [ls EXCEPT !.pc = "top"] /\ intr' = "wait" /\ lw' = "wait"
-  /\ UNCHANGED <<now, parent, term, egc, egerr, ret, stopped, tasks, nextId, wk, lsown, dl, linkEv, ipc, inbox, fwd, held, nIn, nFlip, nHold, nQuery>>
+  /\ \E res \in (IF WriteFaults /\ ~UnicastOnly /\ ~MonitorMode THEN {"ok", "other", "sys"} ELSE {"ok"}) :
+       /\ rq' = LET r1 == OnDial(rq, [k |-> conn, res |-> "ok", t |-> now]) IN
+                IF UnicastOnly \/ MonitorMode THEN r1  \* send() skips multicast before building anything; a monitor sends nothing
+                ELSE OnWRet(OnWCall(Gen(r1), EvWC(ALLNODES, Life)), EvWRc(ALLNODES, res))
+       /\ main' = "egwait"
+       /\ IF res = "ok"
+          THEN /\ sch' = [sch EXCEPT !.pc = IF MonitorMode THEN "done" ELSE "select", !.last = now]
+               /\ mc' = [mc EXCEPT !.pc = IF UnicastOnly \/ MonitorMode THEN "done" ELSE "check"]
+               /\ ls' = [ls EXCEPT !.pc = "top"] /\ intr' = "wait" /\ lw' = "wait"
+               /\ UNCHANGED <<egc, egerr>>
+          ELSE \* the initial RA could not be sent: fn returns that error before any goroutine is started
+               /\ sch' = [sch EXCEPT !.pc = "done"] /\ mc' = [mc EXCEPT !.pc = "done"]
+               /\ ls' = [ls EXCEPT !.pc = "done"] /\ lw' = "done" /\ intr' = "done"
+               /\ Fail(IF res = "sys" THEN "txerrsys" ELSE "txerr")
+  /\ UNCHANGED <<now, parent, term, ret, stopped, tasks, nextId, wk, lsown, dl, linkEv, ipc, inbox, fwd, held, conn, nIn, nFlip, nHold, nQuery>>
 
 GroupDone == sch.pc = "done" /\ mc.pc = "done" /\ ls.pc = "done" /\ lw = "done"
 
 M_EgDone ==
   /\ main = "egwait" /\ GroupDone
   /\ IF egerr # NONE
-     THEN /\ main' = "ret" /\ ret' = egerr      \* fn returns the error; Dial cleans the connection up
-          /\ rq' = OnRet(OnDone(rq, EvK), [res |-> "err", t |-> now])
+     THEN \* fn returns the error; Dial runs the cleanup closure, then init() classifies the error
+          IF Recoverable(egerr)
+          THEN /\ main' = "redial" /\ ret' = ret /\ rq' = OnDone(rq, EvK)
+          ELSE /\ main' = "ret" /\ ret' = egerr
+               /\ rq' = OnRet(OnDone(rq, EvK), [res |-> IF Recoverable(egerr) /\ parent = "canceled" THEN "nil" ELSE "err", t |-> now])
      ELSE /\ main' = "shutdown" /\ ret' = ret /\ rq' = rq
-  /\ UNCHANGED <<now, parent, term, egc, egerr, sch, stopped, tasks, nextId, wk, mc, ls, lsown, intr, dl, lw, linkEv, ipc, inbox, fwd, held, nIn, nFlip, nHold, nQuery>>
+  /\ UNCHANGED <<now, parent, term, egc, egerr, sch, stopped, tasks, nextId, wk, mc, ls, lsown, intr, dl, lw, linkEv, ipc, inbox, fwd, held, conn, nIn, nFlip, nHold, nQuery>>
+
+\* Dialer.init after a recoverable error: first retry at once; select { <-ctx.Done() ; <-time.After(0) } may go either
+\* way when a stop request is already pending. A successful re-dial starts a fresh session on a new connection.
+D_Redial ==
+  /\ main = "redial"
+  /\ \/ /\ parent = "canceled"
+        /\ main' = "ret" /\ ret' = "nil" /\ rq' = OnRet(rq, [res |-> "nil", t |-> now])
+        /\ UNCHANGED <<egc, egerr, sch, stopped, tasks, wk, mc, ls, lsown, intr, dl, lw, linkEv, ipc, inbox, conn>>
+     \/ \* every one of the 50 attempts fails (an environment choice; Dialer.tla has the loop itself): "timed out"
+        /\ main' = "ret" /\ ret' = "err"
+        /\ rq' = OnRet(OnDial(rq, [k |-> 0, res |-> "lnr", t |-> now]), [res |-> "err", t |-> now])
+        /\ UNCHANGED <<egc, egerr, sch, stopped, tasks, wk, mc, ls, lsown, intr, dl, lw, linkEv, ipc, inbox, conn>>
+     \/ /\ conn < MaxSessions
+        /\ main' = "init" /\ conn' = conn + 1 /\ ret' = ret /\ rq' = rq
+        /\ egc' = FALSE /\ egerr' = NONE
+        /\ sch' = [pc |-> "off", ctxc |-> FALSE, last |-> 0, err |-> NONE]
+        /\ stopped' = FALSE /\ tasks' = {} /\ wk' = <<>>
+        /\ mc' = [pc |-> "off", i |-> 0, timer |-> 0]
+        /\ ls' = [pc |-> "off", i |-> 0, timer |-> 0, msg |-> NONE]
+        /\ lsown' = FALSE /\ intr' = "off" /\ dl' = FALSE /\ lw' = "off" /\ linkEv' = FALSE
+        /\ ipc' = <<>> /\ inbox' = <<>>
+  /\ UNCHANGED <<now, parent, term, nextId, fwd, held, nIn, nFlip, nHold, nQuery>>
 
 \* shutdown(): terminate() false, or unicast-only (send() skips multicast) => nothing
 M_ShutCall ==
@@ -145,13 +186,14 @@ M_ShutCall ==
           /\ main' = "shutwrite" /\ ret' = ret
      ELSE /\ rq' = OnRet(OnDone(rq, EvK), [res |-> "nil", t |-> now])
           /\ main' = "ret" /\ ret' = "nil"
-  /\ UNCHANGED <<now, parent, term, egc, egerr, sch, stopped, tasks, nextId, wk, mc, ls, lsown, intr, dl, lw, linkEv, ipc, inbox, fwd, held, nIn, nFlip, nHold, nQuery>>
+  /\ UNCHANGED <<now, parent, term, egc, egerr, sch, stopped, tasks, nextId, wk, mc, ls, lsown, intr, dl, lw, linkEv, ipc, inbox, fwd, held, conn, nIn, nFlip, nHold, nQuery>>
 
 M_ShutRet ==
   /\ main = "shutwrite" /\ ALLNODES \notin held
-  /\ rq' = OnRet(OnDone(OnWRet(rq, EvWR(ALLNODES, TRUE)), EvK), [res |-> "nil", t |-> now])
+  /\ \E res \in (IF WriteFaults THEN {"ok", "other", "sys"} ELSE {"ok"}) :      \* a failure here is only logged
+       rq' = OnRet(OnDone(OnWRet(rq, EvWRc(ALLNODES, res)), EvK), [res |-> "nil", t |-> now])
   /\ main' = "ret" /\ ret' = "nil"
-  /\ UNCHANGED <<now, parent, term, egc, egerr, sch, stopped, tasks, nextId, wk, mc, ls, lsown, intr, dl, lw, linkEv, ipc, inbox, fwd, held, nIn, nFlip, nHold, nQuery>>
+  /\ UNCHANGED <<now, parent, term, egc, egerr, sch, stopped, tasks, nextId, wk, mc, ls, lsown, intr, dl, lw, linkEv, ipc, inbox, fwd, held, conn, nIn, nFlip, nHold, nQuery>>
 
 ---------------------------------------------------------------------------
 (* scheduler goroutine: schedule() *)
@@ -162,22 +204,22 @@ S_RecvErr ==
   /\ sch.pc = "select" /\ ErrBlocked # {}
   /\ \E i \in ErrBlocked :
        /\ wk' = [wk EXCEPT ![i].pc = "done"]
-       /\ sch' = [sch EXCEPT !.pc = "stopping", !.ctxc = TRUE, !.err = "txerr"]
+       /\ sch' = [sch EXCEPT !.pc = "stopping", !.ctxc = TRUE, !.err = IF wk[i].life = 1 THEN "txerrsys" ELSE "txerr"]
        /\ stopped' = TRUE /\ tasks' = {}          \* stop(): pending timers are stopped
-  /\ UNCHANGED <<now, parent, term, egc, egerr, main, ret, nextId, mc, ls, lsown, intr, dl, lw, linkEv, ipc, inbox, fwd, held, rq, nIn, nFlip, nHold, nQuery>>
+  /\ UNCHANGED <<now, parent, term, egc, egerr, main, ret, nextId, mc, ls, lsown, intr, dl, lw, linkEv, ipc, inbox, fwd, held, rq, conn, nIn, nFlip, nHold, nQuery>>
 
 S_CtxDone ==
   /\ sch.pc = "select" /\ SchC
   /\ sch' = [sch EXCEPT !.pc = "stopping"]
   /\ stopped' = TRUE /\ tasks' = {}               \* stop(): pending timers are stopped
-  /\ UNCHANGED <<now, parent, term, egc, egerr, main, ret, nextId, wk, mc, ls, lsown, intr, dl, lw, linkEv, ipc, inbox, fwd, held, rq, nIn, nFlip, nHold, nQuery>>
+  /\ UNCHANGED <<now, parent, term, egc, egerr, main, ret, nextId, wk, mc, ls, lsown, intr, dl, lw, linkEv, ipc, inbox, fwd, held, rq, conn, nIn, nFlip, nHold, nQuery>>
 
 \* stop(): wg.Wait() for the workers that got past the stopped check
 S_Stopped ==
   /\ sch.pc = "stopping" /\ InFlight = {}
   /\ sch' = [sch EXCEPT !.pc = "done"]
   /\ IF sch.err # NONE THEN Fail(sch.err) ELSE UNCHANGED <<egc, egerr>>
-  /\ UNCHANGED <<now, parent, term, main, ret, stopped, tasks, nextId, wk, mc, ls, lsown, intr, dl, lw, linkEv, ipc, inbox, fwd, held, rq, nIn, nFlip, nHold, nQuery>>
+  /\ UNCHANGED <<now, parent, term, main, ret, stopped, tasks, nextId, wk, mc, ls, lsown, intr, dl, lw, linkEv, ipc, inbox, fwd, held, rq, conn, nIn, nFlip, nHold, nQuery>>
 
 S_RecvIP ==
   /\ sch.pc = "select" /\ ipc # <<>>
@@ -193,7 +235,7 @@ S_RecvIP ==
                   /\ tasks' = tasks \cup {[id |-> nextId, at |-> now + dly, dst |-> d]}
                   /\ sch' = [sch EXCEPT !.last = now + dly]
                   /\ nextId' = nextId + 1
-  /\ UNCHANGED <<now, parent, term, egc, egerr, main, ret, stopped, wk, mc, ls, lsown, intr, dl, lw, linkEv, inbox, fwd, held, rq, nIn, nFlip, nHold, nQuery>>
+  /\ UNCHANGED <<now, parent, term, egc, egerr, main, ret, stopped, wk, mc, ls, lsown, intr, dl, lw, linkEv, inbox, fwd, held, rq, conn, nIn, nFlip, nHold, nQuery>>
 
 \* a timer fires at its deadline into its own goroutine (a timer that fired
 \* just before stop() is not recalled by Stop: its goroutine meets `stopped`)
@@ -204,7 +246,7 @@ T_Fire ==
        /\ tasks' = tasks \ {tk}
        /\ wk' = [i \in (DOMAIN wk) \cup {tk.id} |->
                    IF i = tk.id THEN [pc |-> "start", dst |-> tk.dst, life |-> 0] ELSE wk[i]]
-  /\ UNCHANGED <<now, parent, term, egc, egerr, main, ret, sch, stopped, nextId, mc, ls, lsown, intr, dl, lw, linkEv, ipc, inbox, fwd, held, rq, nIn, nFlip, nHold, nQuery>>
+  /\ UNCHANGED <<now, parent, term, egc, egerr, main, ret, sch, stopped, nextId, mc, ls, lsown, intr, dl, lw, linkEv, ipc, inbox, fwd, held, rq, conn, nIn, nFlip, nHold, nQuery>>
 
 ---------------------------------------------------------------------------
 (* send workers: work() -> sendWorker() -> send() -> buildRA() -> WriteTo *)
@@ -215,29 +257,29 @@ W_Start ==
                    IF stopped THEN "done"
                    ELSE IF UnicastOnly /\ IsMc(wk[i].dst) THEN "done"   \* nothing sent, nothing counted
                    ELSE "build"]
-  /\ UNCHANGED <<now, parent, term, egc, egerr, main, ret, sch, stopped, tasks, nextId, mc, ls, lsown, intr, dl, lw, linkEv, ipc, inbox, fwd, held, rq, nIn, nFlip, nHold, nQuery>>
+  /\ UNCHANGED <<now, parent, term, egc, egerr, main, ret, sch, stopped, tasks, nextId, mc, ls, lsown, intr, dl, lw, linkEv, ipc, inbox, fwd, held, rq, conn, nIn, nFlip, nHold, nQuery>>
 
 W_Build ==     \* reads the forwarding flag: its own step, so a flip can fall before or after
   /\ \E i \in DOMAIN wk :
        /\ wk[i].pc = "build"
        /\ wk' = [wk EXCEPT ![i].pc = "built", ![i].life = Life]
   /\ rq' = Gen(rq)
-  /\ UNCHANGED <<now, parent, term, egc, egerr, main, ret, sch, stopped, tasks, nextId, mc, ls, lsown, intr, dl, lw, linkEv, ipc, inbox, fwd, held, nIn, nFlip, nHold, nQuery>>
+  /\ UNCHANGED <<now, parent, term, egc, egerr, main, ret, sch, stopped, tasks, nextId, mc, ls, lsown, intr, dl, lw, linkEv, ipc, inbox, fwd, held, conn, nIn, nFlip, nHold, nQuery>>
 
 W_WCall ==
   /\ \E i \in DOMAIN wk :
        /\ wk[i].pc = "built"
        /\ rq' = OnWCall(rq, EvWC(wk[i].dst, wk[i].life))
        /\ wk' = [wk EXCEPT ![i].pc = "wcall"]
-  /\ UNCHANGED <<now, parent, term, egc, egerr, main, ret, sch, stopped, tasks, nextId, mc, ls, lsown, intr, dl, lw, linkEv, ipc, inbox, fwd, held, nIn, nFlip, nHold, nQuery>>
+  /\ UNCHANGED <<now, parent, term, egc, egerr, main, ret, sch, stopped, tasks, nextId, mc, ls, lsown, intr, dl, lw, linkEv, ipc, inbox, fwd, held, conn, nIn, nFlip, nHold, nQuery>>
 
 W_WRet ==
   /\ \E i \in DOMAIN wk :
        /\ wk[i].pc = "wcall" /\ wk[i].dst \notin held
-       /\ \E ok \in (IF WriteFaults THEN BOOLEAN ELSE {TRUE}) :
-            /\ wk' = [wk EXCEPT ![i].pc = IF ok THEN "count" ELSE "errcount"]
-            /\ rq' = OnWRet(rq, EvWR(wk[i].dst, ok))
-  /\ UNCHANGED <<now, parent, term, egc, egerr, main, ret, sch, stopped, tasks, nextId, mc, ls, lsown, intr, dl, lw, linkEv, ipc, inbox, fwd, held, nIn, nFlip, nHold, nQuery>>
+       /\ \E res \in (IF WriteFaults THEN {"ok", "other", "sys"} ELSE {"ok"}) :
+            /\ wk' = [wk EXCEPT ![i].pc = IF res = "ok" THEN "count" ELSE "errcount", ![i].life = IF res = "sys" THEN 1 ELSE 0]
+            /\ rq' = OnWRet(rq, EvWRc(wk[i].dst, res))
+  /\ UNCHANGED <<now, parent, term, egc, egerr, main, ret, sch, stopped, tasks, nextId, mc, ls, lsown, intr, dl, lw, linkEv, ipc, inbox, fwd, held, conn, nIn, nFlip, nHold, nQuery>>
 
 W_Count ==
   /\ \E i \in DOMAIN wk :
@@ -247,21 +289,21 @@ W_Count ==
                /\ wk' = [wk EXCEPT ![i].pc = "done"]
           ELSE /\ rq' = OnCnt(rq, EvCnt("txerr"))
                /\ wk' = [wk EXCEPT ![i].pc = "errsend"]
-  /\ UNCHANGED <<now, parent, term, egc, egerr, main, ret, sch, stopped, tasks, nextId, mc, ls, lsown, intr, dl, lw, linkEv, ipc, inbox, fwd, held, nIn, nFlip, nHold, nQuery>>
+  /\ UNCHANGED <<now, parent, term, egc, egerr, main, ret, sch, stopped, tasks, nextId, mc, ls, lsown, intr, dl, lw, linkEv, ipc, inbox, fwd, held, conn, nIn, nFlip, nHold, nQuery>>
 
 \* select { errC <- err ; <-ctx.Done() }: the receive side is S_RecvErr
 W_ErrGiveUp ==
   /\ \E i \in DOMAIN wk :
        /\ wk[i].pc = "errsend" /\ SchC
        /\ wk' = [wk EXCEPT ![i].pc = "done"]
-  /\ UNCHANGED <<now, parent, term, egc, egerr, main, ret, sch, stopped, tasks, nextId, mc, ls, lsown, intr, dl, lw, linkEv, ipc, inbox, fwd, held, rq, nIn, nFlip, nHold, nQuery>>
+  /\ UNCHANGED <<now, parent, term, egc, egerr, main, ret, sch, stopped, tasks, nextId, mc, ls, lsown, intr, dl, lw, linkEv, ipc, inbox, fwd, held, rq, conn, nIn, nFlip, nHold, nQuery>>
 
 ---------------------------------------------------------------------------
 (* unsolicited multicast loop: multicast() *)
 MC_Check ==
   /\ mc.pc = "check"
   /\ mc' = [mc EXCEPT !.pc = IF EgC THEN "done" ELSE "send"]
-  /\ UNCHANGED <<now, parent, term, egc, egerr, main, ret, sch, stopped, tasks, nextId, wk, ls, lsown, intr, dl, lw, linkEv, ipc, inbox, fwd, held, rq, nIn, nFlip, nHold, nQuery>>
+  /\ UNCHANGED <<now, parent, term, egc, egerr, main, ret, sch, stopped, tasks, nextId, wk, ls, lsown, intr, dl, lw, linkEv, ipc, inbox, fwd, held, rq, conn, nIn, nFlip, nHold, nQuery>>
 
 MC_Send ==     \* select { <-ctx.Done() ; ipC <- all-nodes }, then arm the timer
   /\ mc.pc = "send"
@@ -270,13 +312,13 @@ MC_Send ==     \* select { <-ctx.Done() ; ipC <- all-nodes }, then arm the timer
         /\ ipc' = Append(ipc, ALLNODES)
         /\ \E d \in Waits(mc.i) :
              mc' = [pc |-> "wait", i |-> IF mc.i < InitCount THEN mc.i + 1 ELSE mc.i, timer |-> now + d]
-  /\ UNCHANGED <<now, parent, term, egc, egerr, main, ret, sch, stopped, tasks, nextId, wk, ls, lsown, intr, dl, lw, linkEv, inbox, fwd, held, rq, nIn, nFlip, nHold, nQuery>>
+  /\ UNCHANGED <<now, parent, term, egc, egerr, main, ret, sch, stopped, tasks, nextId, wk, ls, lsown, intr, dl, lw, linkEv, inbox, fwd, held, rq, conn, nIn, nFlip, nHold, nQuery>>
 
 MC_Wake ==
   /\ mc.pc = "wait"
   /\ \/ EgC /\ mc' = [mc EXCEPT !.pc = "done"]
      \/ mc.timer <= now /\ mc' = [mc EXCEPT !.pc = "check"]
-  /\ UNCHANGED <<now, parent, term, egc, egerr, main, ret, sch, stopped, tasks, nextId, wk, ls, lsown, intr, dl, lw, linkEv, ipc, inbox, fwd, held, rq, nIn, nFlip, nHold, nQuery>>
+  /\ UNCHANGED <<now, parent, term, egc, egerr, main, ret, sch, stopped, tasks, nextId, wk, ls, lsown, intr, dl, lw, linkEv, ipc, inbox, fwd, held, rq, conn, nIn, nFlip, nHold, nQuery>>
 
 ---------------------------------------------------------------------------
 (* listener goroutine: Listen() + receiveRetry(); interrupt goroutine *)
@@ -287,7 +329,7 @@ L_Top ==      \* top of receiveRetry: i := 0, ctx check, ReadFrom is called
   /\ ls.pc = "top"
   /\ ls' = [ls EXCEPT !.pc = Again, !.i = 0]
   /\ rq' = RCallIfReading(rq)
-  /\ UNCHANGED <<now, parent, term, egc, egerr, main, ret, sch, stopped, tasks, nextId, wk, mc, lsown, intr, dl, lw, linkEv, ipc, inbox, fwd, held, nIn, nFlip, nHold, nQuery>>
+  /\ UNCHANGED <<now, parent, term, egc, egerr, main, ret, sch, stopped, tasks, nextId, wk, mc, lsown, intr, dl, lw, linkEv, ipc, inbox, fwd, held, conn, nIn, nFlip, nHold, nQuery>>
 
 L_Read ==
   /\ ls.pc = "read"
@@ -298,22 +340,22 @@ L_Read ==
      \/ /\ ~dl /\ inbox # <<>>
         /\ LET msg == Head(inbox) IN
            /\ inbox' = Tail(inbox)
-           /\ CASE msg.kind = "readerr" ->
-                     /\ ls' = [ls EXCEPT !.pc = IF LsC THEN "exitwait" ELSE "errexit", !.msg = "readerr"]
-                     /\ rq' = OnIn(rq, EvIn("readerr", "", 0))
+           /\ CASE msg.kind \in {"readerr", "readerrsys"} ->
+                     /\ ls' = [ls EXCEPT !.pc = IF LsC THEN "exitwait" ELSE "errexit", !.msg = msg.kind]
+                     /\ rq' = OnIn(rq, EvInC("readerr", IF msg.kind = "readerrsys" THEN "sys" ELSE "other", "", 0))
                 [] msg.kind = "timeout" ->
                      /\ ls' = [ls EXCEPT !.pc = IF LsC THEN "exitwait" ELSE "backoff",
                                          !.timer = now + ls.i * BackoffUnit]
                      /\ rq' = OnIn(rq, EvIn("timeout", "", 0))
                 [] msg.kind = "badhl" ->      \* counted invalid; does NOT consume a retry
                      /\ ls' = [ls EXCEPT !.pc = Again]
-                     /\ rq' = RCallIfReading(OnCnt(OnIn(rq, EvIn("rs", "badsrc", 1)), EvCnt("inv")))
+                     /\ rq' = RCallIfReading(OnCnt(OnIn(rq, EvIn("rs", IF msg.src = NONE THEN "badsrc" ELSE msg.src, 1)), EvCnt("inv")))
                 [] OTHER ->
                      /\ ls' = [ls EXCEPT !.pc = "handle", !.msg = msg]
                      /\ rq' = OnIn(rq, EvIn(IF msg.kind \in {"rasame", "radiff"} THEN "ra"
                                             ELSE IF msg.kind = "other" THEN "ns" ELSE msg.kind,
                                             msg.src, 255))
-  /\ UNCHANGED <<now, parent, term, egc, egerr, main, ret, sch, stopped, tasks, nextId, wk, mc, lsown, intr, dl, lw, linkEv, ipc, fwd, held, nIn, nFlip, nHold, nQuery>>
+  /\ UNCHANGED <<now, parent, term, egc, egerr, main, ret, sch, stopped, tasks, nextId, wk, mc, lsown, intr, dl, lw, linkEv, ipc, fwd, held, conn, nIn, nFlip, nHold, nQuery>>
 
 L_Backoff ==
   /\ ls.pc = "backoff"
@@ -324,7 +366,7 @@ L_Backoff ==
                                !.pc = IF exhausted THEN (IF LsC THEN "exitwait" ELSE "errexit") ELSE Again,
                                !.msg = "exhausted"]
            /\ rq' = IF exhausted THEN rq ELSE RCallIfReading(rq)
-  /\ UNCHANGED <<now, parent, term, egc, egerr, main, ret, sch, stopped, tasks, nextId, wk, mc, lsown, intr, dl, lw, linkEv, ipc, inbox, fwd, held, nIn, nFlip, nHold, nQuery>>
+  /\ UNCHANGED <<now, parent, term, egc, egerr, main, ret, sch, stopped, tasks, nextId, wk, mc, lsown, intr, dl, lw, linkEv, ipc, inbox, fwd, held, conn, nIn, nFlip, nHold, nQuery>>
 
 \* Advertiser.handle: counts the message; RS => destination for the scheduler;
 \* RA => builds our own RA (reads forwarding) and verifies; anything else => invalid
@@ -340,36 +382,36 @@ L_Handle ==
                 [] msg.kind = "rasame" -> Gen(r1)                             \* buildRA for the comparison
                 [] msg.kind = "radiff" -> OnHook(Gen(r1), [life |-> Life, body |-> "b", t |-> now])
                 [] OTHER               -> r1
-  /\ UNCHANGED <<now, parent, term, egc, egerr, main, ret, sch, stopped, tasks, nextId, wk, mc, lsown, intr, dl, lw, linkEv, ipc, inbox, fwd, held, nIn, nFlip, nHold, nQuery>>
+  /\ UNCHANGED <<now, parent, term, egc, egerr, main, ret, sch, stopped, tasks, nextId, wk, mc, lsown, intr, dl, lw, linkEv, ipc, inbox, fwd, held, conn, nIn, nFlip, nHold, nQuery>>
 
 L_Push ==     \* select { <-ctx.Done() ; ipC <- ip }  (ctx of the errgroup)
   /\ ls.pc = "push"
   /\ \/ /\ EgC /\ ipc' = ipc
      \/ /\ Len(ipc) < ChanCap /\ ipc' = Append(ipc, ls.msg)
   /\ ls' = [ls EXCEPT !.pc = "top", !.msg = NONE]
-  /\ UNCHANGED <<now, parent, term, egc, egerr, main, ret, sch, stopped, tasks, nextId, wk, mc, lsown, intr, dl, lw, linkEv, inbox, fwd, held, rq, nIn, nFlip, nHold, nQuery>>
+  /\ UNCHANGED <<now, parent, term, egc, egerr, main, ret, sch, stopped, tasks, nextId, wk, mc, lsown, intr, dl, lw, linkEv, inbox, fwd, held, rq, conn, nIn, nFlip, nHold, nQuery>>
 
 \* error return from Listen: deferred cancel() then eg.Wait() for the interrupt goroutine
 L_ErrCancel ==
   /\ ls.pc = "errexit"
   /\ ls' = [ls EXCEPT !.pc = "errwait"] /\ lsown' = TRUE
-  /\ UNCHANGED <<now, parent, term, egc, egerr, main, ret, sch, stopped, tasks, nextId, wk, mc, intr, dl, lw, linkEv, ipc, inbox, fwd, held, rq, nIn, nFlip, nHold, nQuery>>
+  /\ UNCHANGED <<now, parent, term, egc, egerr, main, ret, sch, stopped, tasks, nextId, wk, mc, intr, dl, lw, linkEv, ipc, inbox, fwd, held, rq, conn, nIn, nFlip, nHold, nQuery>>
 
 L_ErrDone ==
   /\ ls.pc = "errwait" /\ intr = "done"
   /\ ls' = [ls EXCEPT !.pc = "done"]
   /\ Fail(ls.msg)
-  /\ UNCHANGED <<now, parent, term, main, ret, sch, stopped, tasks, nextId, wk, mc, lsown, intr, dl, lw, linkEv, ipc, inbox, fwd, held, rq, nIn, nFlip, nHold, nQuery>>
+  /\ UNCHANGED <<now, parent, term, main, ret, sch, stopped, tasks, nextId, wk, mc, lsown, intr, dl, lw, linkEv, ipc, inbox, fwd, held, rq, conn, nIn, nFlip, nHold, nQuery>>
 
 L_ExitWait ==
   /\ ls.pc = "exitwait" /\ intr = "done"
   /\ ls' = [ls EXCEPT !.pc = "done"]
-  /\ UNCHANGED <<now, parent, term, egc, egerr, main, ret, sch, stopped, tasks, nextId, wk, mc, lsown, intr, dl, lw, linkEv, ipc, inbox, fwd, held, rq, nIn, nFlip, nHold, nQuery>>
+  /\ UNCHANGED <<now, parent, term, egc, egerr, main, ret, sch, stopped, tasks, nextId, wk, mc, lsown, intr, dl, lw, linkEv, ipc, inbox, fwd, held, rq, conn, nIn, nFlip, nHold, nQuery>>
 
 I_Fire ==
   /\ intr = "wait" /\ LsC
   /\ intr' = "done" /\ dl' = TRUE
-  /\ UNCHANGED <<now, parent, term, egc, egerr, main, ret, sch, stopped, tasks, nextId, wk, mc, ls, lsown, lw, linkEv, ipc, inbox, fwd, held, rq, nIn, nFlip, nHold, nQuery>>
+  /\ UNCHANGED <<now, parent, term, egc, egerr, main, ret, sch, stopped, tasks, nextId, wk, mc, ls, lsown, lw, linkEv, ipc, inbox, fwd, held, rq, conn, nIn, nFlip, nHold, nQuery>>
 
 ---------------------------------------------------------------------------
 (* link-state watcher goroutine: linkStateWatcher() *)
@@ -377,10 +419,10 @@ LW_Step ==
   /\ lw = "wait"
   /\ \/ /\ linkEv /\ lw' = "done" /\ Fail("linkchange")
      \/ /\ EgC /\ lw' = "done" /\ UNCHANGED <<egc, egerr>>
-  /\ UNCHANGED <<now, parent, term, main, ret, sch, stopped, tasks, nextId, wk, mc, ls, lsown, intr, dl, linkEv, ipc, inbox, fwd, held, rq, nIn, nFlip, nHold, nQuery>>
+  /\ UNCHANGED <<now, parent, term, main, ret, sch, stopped, tasks, nextId, wk, mc, ls, lsown, intr, dl, linkEv, ipc, inbox, fwd, held, rq, conn, nIn, nFlip, nHold, nQuery>>
 
 ---------------------------------------------------------------------------
-Internal == M_InitSend \/ M_EgDone \/ M_ShutCall \/ M_ShutRet
+Internal == M_InitSend \/ M_EgDone \/ D_Redial \/ M_ShutCall \/ M_ShutRet
             \/ S_RecvErr \/ S_CtxDone \/ S_Stopped \/ S_RecvIP \/ T_Fire
             \/ W_Start \/ W_Build \/ W_WCall \/ W_WRet \/ W_Count \/ W_ErrGiveUp
             \/ MC_Check \/ MC_Send \/ MC_Wake
@@ -400,7 +442,7 @@ E_Query ==
              IF api THEN OnApi(r1, [ok |-> TRUE, life |-> Life, t |-> now])
              ELSE OnScrape(r1, [ok |-> TRUE, fwd |-> fwd, misconf |-> ~fwd /\ CfgLife > 0, t |-> now])
   /\ nQuery' = nQuery + 1
-  /\ UNCHANGED <<now, parent, term, egc, egerr, main, ret, sch, stopped, tasks, nextId, wk, mc, ls, lsown, intr, dl, lw, linkEv, ipc, inbox, fwd, held, nIn, nFlip, nHold>>
+  /\ UNCHANGED <<now, parent, term, egc, egerr, main, ret, sch, stopped, tasks, nextId, wk, mc, ls, lsown, intr, dl, lw, linkEv, ipc, inbox, fwd, held, conn, nIn, nFlip, nHold>>
 
 \* messages arrive at quiescent points, or back to back while earlier ones are
 \* still queued (bursts overtake the listener); a message arriving in the middle
@@ -410,43 +452,43 @@ E_Arrive ==
   /\ Quiescent \/ inbox # <<>>
   /\ \E msg \in Msgs : inbox' = Append(inbox, msg)
   /\ nIn' = nIn + 1
-  /\ UNCHANGED <<now, parent, term, egc, egerr, main, ret, sch, stopped, tasks, nextId, wk, mc, ls, lsown, intr, dl, lw, linkEv, ipc, fwd, held, rq, nFlip, nHold, nQuery>>
+  /\ UNCHANGED <<now, parent, term, egc, egerr, main, ret, sch, stopped, tasks, nextId, wk, mc, ls, lsown, intr, dl, lw, linkEv, ipc, fwd, held, rq, conn, nFlip, nHold, nQuery>>
 
 E_Cancel ==
   /\ AllowCancel /\ Quiescent /\ parent = "live" /\ main = "egwait"
   /\ parent' = "canceled"
   /\ \E b \in BOOLEAN : /\ term' = b
                         /\ rq' = OnCancel(OnQuiet(rq, EvT), [term |-> b, t |-> now])
-  /\ UNCHANGED <<now, egc, egerr, main, ret, sch, stopped, tasks, nextId, wk, mc, ls, lsown, intr, dl, lw, linkEv, ipc, inbox, fwd, held, nIn, nFlip, nHold, nQuery>>
+  /\ UNCHANGED <<now, egc, egerr, main, ret, sch, stopped, tasks, nextId, wk, mc, ls, lsown, intr, dl, lw, linkEv, ipc, inbox, fwd, held, conn, nIn, nFlip, nHold, nQuery>>
 
 E_Link ==
   /\ LinkFaults /\ Quiescent /\ ~linkEv /\ main = "egwait" /\ lw = "wait"
   /\ linkEv' = TRUE /\ rq' = OnLink(OnQuiet(rq, EvT), EvT)
-  /\ UNCHANGED <<now, parent, term, egc, egerr, main, ret, sch, stopped, tasks, nextId, wk, mc, ls, lsown, intr, dl, lw, ipc, inbox, fwd, held, nIn, nFlip, nHold, nQuery>>
+  /\ UNCHANGED <<now, parent, term, egc, egerr, main, ret, sch, stopped, tasks, nextId, wk, mc, ls, lsown, intr, dl, lw, ipc, inbox, fwd, held, conn, nIn, nFlip, nHold, nQuery>>
 
 E_Flip ==
   /\ nFlip < MaxFlips
   /\ fwd' = ~fwd /\ nFlip' = nFlip + 1
-  /\ UNCHANGED <<now, parent, term, egc, egerr, main, ret, sch, stopped, tasks, nextId, wk, mc, ls, lsown, intr, dl, lw, linkEv, ipc, inbox, held, rq, nIn, nHold, nQuery>>
+  /\ UNCHANGED <<now, parent, term, egc, egerr, main, ret, sch, stopped, tasks, nextId, wk, mc, ls, lsown, intr, dl, lw, linkEv, ipc, inbox, held, rq, conn, nIn, nHold, nQuery>>
 
 \* the driver holds a destination's WriteTo open (slow transmit) and lets it go
 E_Hold ==
   /\ nHold < MaxHolds /\ main = "egwait"
   /\ \E d \in (Hosts \cup {ALLNODES}) \ held : held' = held \cup {d}
   /\ nHold' = nHold + 1 /\ rq' = OnHold(rq, EvT)
-  /\ UNCHANGED <<now, parent, term, egc, egerr, main, ret, sch, stopped, tasks, nextId, wk, mc, ls, lsown, intr, dl, lw, linkEv, ipc, inbox, fwd, nIn, nFlip, nQuery>>
+  /\ UNCHANGED <<now, parent, term, egc, egerr, main, ret, sch, stopped, tasks, nextId, wk, mc, ls, lsown, intr, dl, lw, linkEv, ipc, inbox, fwd, conn, nIn, nFlip, nQuery>>
 
 E_Release ==
   /\ Quiescent /\ held # {}
   /\ \E d \in held : held' = held \ {d}
   /\ rq' = OnRelease(rq, EvT)
-  /\ UNCHANGED <<now, parent, term, egc, egerr, main, ret, sch, stopped, tasks, nextId, wk, mc, ls, lsown, intr, dl, lw, linkEv, ipc, inbox, fwd, nIn, nFlip, nHold, nQuery>>
+  /\ UNCHANGED <<now, parent, term, egc, egerr, main, ret, sch, stopped, tasks, nextId, wk, mc, ls, lsown, intr, dl, lw, linkEv, ipc, inbox, fwd, conn, nIn, nFlip, nHold, nQuery>>
 
 Tick ==
   /\ Quiescent /\ now < MaxT
   /\ now' = now + 1
   /\ rq' = OnAdvance(OnQuiet(rq, EvT), [to |-> now + 1, t |-> now])
-  /\ UNCHANGED <<parent, term, egc, egerr, main, ret, sch, stopped, tasks, nextId, wk, mc, ls, lsown, intr, dl, lw, linkEv, ipc, inbox, fwd, held, nIn, nFlip, nHold, nQuery>>
+  /\ UNCHANGED <<parent, term, egc, egerr, main, ret, sch, stopped, tasks, nextId, wk, mc, ls, lsown, intr, dl, lw, linkEv, ipc, inbox, fwd, held, conn, nIn, nFlip, nHold, nQuery>>
 
 Next == Internal \/ E_Arrive \/ E_Cancel \/ E_Link \/ E_Flip \/ E_Hold \/ E_Release \/ E_Query \/ Tick
 Spec == Init /\ [][Next]_vars
@@ -466,7 +508,7 @@ C10_NoLeak      == main = "ret" => /\ ls.pc = "done" /\ mc.pc = "done" /\ sch.pc
                                      /\ intr = "done" /\ InFlight = {}
                                      /\ \A i \in DOMAIN wk : wk[i].pc \in {"done", "start"}
 
-TypeOK == /\ main \in {"init", "egwait", "shutdown", "shutwrite", "ret"}
+TypeOK == /\ main \in {"init", "egwait", "redial", "shutdown", "shutwrite", "ret"}
           /\ sch.pc \in {"off", "select", "stopping", "done"}
           /\ Len(ipc) <= ChanCap
 
